@@ -50,6 +50,11 @@ theorem poly_different_orders_unsafe :
     ∃ t ∈ (runSched Poly.proto (Poly.warm 2 true) [Poly.thread 2 true 1, Poly.thread 3 true 1]
       [0, 0, 0, 0, 0, 0, 0, 0, 0, 0, 1, 1, 1, 1, 1, 1, 1, 0, 0, 0]).2, ¬ t.serialOutcome := by decide +kernel
 
+/-- the spline-basis cache must be REPLACED as a whole (what `basis_safe` models): if it were reset field by field, a second
+call could pass the `same_basis` test on the new key and then use the old design matrix -/
+theorem basis_inplace_unsafe :
+    BasisInPlace.PC.done (9, 3) ∈ (runSched (BasisInPlace.proto (5, 3)) ⟨(9, 3), (9, 3)⟩ [.same, .same] [0, 0, 1, 1]).2 := by decide +kernel
+
 -- the serial runs themselves end well (the hypotheses above are not vacuous)
 example : (runSched (Lazy1.proto true) Lazy1.init [.start, .start] [0, 0, 0, 0, 1, 1]).2 = [.ok, .ok] := by decide +kernel
 example : (runSched (Lazy2.proto true) (Lazy2.init false false) [.start] (List.replicate 12 0)).2 = [.ok] := by decide +kernel
